@@ -163,34 +163,75 @@ func mentionsAtom(st *State, a Atom) bool {
 	return false
 }
 
-// havocAllMemory forgets every memory cell (unknown side effects).
+// havocAllMemory forgets every memory cell that unknown code could reach:
+// cells of objects whose address never escapes (it is only used for field
+// access, loads, stores into it, and as receiver/argument of package functions
+// that treat their parameter the same way) are kept.
 func (e *Engine) havocAllMemory(st *State) {
-	for key, a := range e.cellAtom {
-		_ = key
-		if mentionsAtom(st, a) {
-			st.Forget(a)
+	e.havocMemoryExcept(st, nil)
+}
+
+var escapeCache = map[ssa.Value]bool{}
+
+// addressEscapes reports whether pointer value v (an Alloc or a parameter) may
+// be retained or reached by code the analysis does not follow.
+func addressEscapes(v ssa.Value, pkg *ssa.Package, depth int) bool {
+	if r, ok := escapeCache[v]; ok {
+		return r
+	}
+	if depth > 5 {
+		return true
+	}
+	escapeCache[v] = false // cycles (recursive functions): coinductive — no escaping use found on the cycle means no escape
+	res := false
+	refs := v.Referrers()
+	if refs == nil {
+		escapeCache[v] = true
+		return true
+	}
+	for _, ref := range *refs {
+		switch r := ref.(type) {
+		case *ssa.FieldAddr:
+			// address of a field: same object; the field address itself must not escape either
+			if addressEscapes(r, pkg, depth+1) {
+				res = true
+			}
+		case *ssa.IndexAddr:
+			if r.X == v && addressEscapes(r, pkg, depth+1) {
+				res = true
+			}
+		case *ssa.UnOp:
+			if r.Op != token.MUL {
+				res = true
+			}
+		case *ssa.Store:
+			if r.Val == v {
+				res = true
+			}
+		case *ssa.DebugRef:
+		case *ssa.Call:
+			c := r.Common()
+			f, ok := c.Value.(*ssa.Function)
+			if !ok || c.IsInvoke() || f.Pkg != pkg || len(f.Blocks) == 0 {
+				res = true
+				break
+			}
+			for i, a := range c.Args {
+				if a == v {
+					if i >= len(f.Params) || addressEscapes(f.Params[i], pkg, depth+1) {
+						res = true
+					}
+				}
+			}
+		default:
+			res = true
+		}
+		if res {
+			break
 		}
 	}
-	for k := range st.nonnil {
-		if !strings.HasPrefix(k, "v") {
-			delete(st.nonnil, k)
-		}
-	}
-	for k := range st.isnil {
-		if !strings.HasPrefix(k, "v") {
-			delete(st.isnil, k)
-		}
-	}
-	for k := range st.elemsNN {
-		if !strings.HasPrefix(k, "v") {
-			delete(st.elemsNN, k)
-		}
-	}
-	for k := range st.ptr {
-		if !strings.HasPrefix(k, "v") {
-			delete(st.ptr, k)
-		}
-	}
+	escapeCache[v] = res
+	return res
 }
 
 // copyLeaves copies the leaves under srcKey to dstKey (struct assignment / load / store).
@@ -248,6 +289,9 @@ func (e *Engine) exec(fr *frame, st *State, in ssa.Instruction) {
 	case *ssa.Alloc:
 		obj := e.allocObj(x)
 		t := x.Type().(*types.Pointer).Elem()
+		if n, ok := t.(*types.Named); ok {
+			e.objType[obj] = n.Obj().Name()
+		}
 		e.zeroObject(st, obj, t)
 	case *ssa.FieldAddr:
 		e.needNonNil(fr, st, x, x.X, "FieldAddr")
